@@ -1,63 +1,12 @@
-(* C16 — flat-integer interface of the eviction-cap model (streams podevictor and limiter).
-   input :  lim dry capNode capNs capTotal N M  T (node ns ok)*T  S tid*S      (cap -1 = unset)
-   observable : per schedule step  api ret total  node-counters(0..N)  ns-counters(1..M) *)
+(* C16 — extraction entry points of the stream podevictor (tag 0); definitions in C16/WireEvict.v *)
 From Coq Require Import List ZArith Bool.
-From Verif Require Import Lib.Wire C16.Model C16.Spec.
-Import ListNotations.
+From Verif Require Import C16.WireEvict.
 Open Scope Z_scope.
 
-Definition dec_cap (z : Z) : option Z := if z <? 0 then None else Some z.
-
-Definition dec_req (l : list Z) : req * list Z :=
-  match l with
-  | a :: b :: c :: t => (mkReq a b (zb c), t)
-  | _ => (mkReq 0 0 false, [])
-  end.
-
-Definition decode (inp : list Z) : ecase :=
-  match inp with
-  | lim :: dry :: cn :: cs :: ctot :: n :: m :: t =>
-      let '(reqs, r) := decode_seq dec_req t in
-      let '(sched, _) := take_list r in
-      mkEC (zb lim) (zb dry) (mkCaps (dec_cap cn) (dec_cap cs) (dec_cap ctot))
-           (Z.to_nat n) (Z.to_nat m) reqs (map Z.to_nat sched)
-  | _ => mkEC false false (mkCaps None None None) O O [] []
-  end.
-
-Definition flat_rec (o : srec) : list Z :=
-  bz (o_api o) :: o_ret o :: o_ct o :: o_cn o ++ o_cs o.
-
-Definition run_case (inp : list Z) : list Z := flat_map flat_rec (model_trace (decode inp)).
-
-(* cut the observable into one record per schedule step *)
-Fixpoint dec_obs (N M : nat) (sched : list nat) (obs : list Z) : list srec :=
-  match sched with
-  | [] => match obs with [] => [] | _ => [mkS O false 0 0 [] []] end   (* trailing garbage: wrong length *)
-  | i :: t =>
-      match obs with
-      | a :: r :: c :: rest =>
-          if Nat.leb (S N + M) (length rest) then
-            mkS i (zb a) r c (firstn (S N) rest) (firstn M (skipn (S N) rest))
-            :: dec_obs N M t (skipn (S N + M) rest)
-          else []
-      | _ => []
-      end
-  end.
-
-Definition prop_case (inp obs : list Z) : Z :=
-  let e := decode inp in
-  evict_code e (dec_obs (e_N e) (e_M e) (e_sched e) obs).
-
-(* non-trivial: the caps bite (some eviction is refused) and some eviction is granted *)
-Definition nontrivial_case (inp : list Z) : bool :=
-  let tr := model_trace (decode inp) in
-  existsb (fun o => (o_ret o =? 1) && negb (o_api o)) tr && existsb (fun o => o_ret o =? 2) tr
-  && Nat.ltb 1 (length (e_reqs (decode inp))).
-
-(* known finding 1 (limiter stream): the caps are exceeded exactly as the faithful model of
-   the two separate critical sections AllowEvict / Done predicts for this schedule *)
-Definition finding_sig (inp obs : list Z) : Z :=
-  if e_lim (decode inp) && (prop_case inp obs =? 1) && eq_listZ (run_case inp) obs then 1 else 0.
+Definition run_case : list Z -> list Z := run_case_for 0.
+Definition prop_case : list Z -> list Z -> Z := prop_case_for 0.
+Definition nontrivial_case : list Z -> bool := nontrivial_for 0.
+Definition finding_sig : list Z -> list Z -> Z := finding_sig_for 0.
 
 Require Extraction.
 Require Import ExtrOcamlBasic.
